@@ -89,7 +89,14 @@ class Relation:
         )
 
     def __lt__(self, other: Any) -> bool:
+        if isinstance(other, Relation):
+            return self._sort_key() < other._sort_key()
         return str(self) < str(other)
+
+    def _sort_key(self) -> tuple[str, list[str], int, int]:
+        """Key that does not depend on the order of the children (consistent with __eq__)."""
+        parent_name = self.parent.name if self.parent else ""
+        return (parent_name, sorted(c.name for c in self.children), self.card_min, self.card_max)
 
 
 class FeatureType(Enum):
